@@ -711,7 +711,9 @@ def check_records(ctx, runs):
         if 'error' in real and real['error'] != 'UnresolvableCyclicDependency':
             # the backend refused a statement (reported by the oracle): the model must have predicted the statements up to it
             pt = canon_model(rec['partial_trace'] or [])
-            if not ('ok' in model and model['ok'][:len(pt)] == pt):
+            if 'ok' not in model:
+                ctx.count('model-prefix-unavailable(model reports a later cycle)')
+            elif not (model['ok'][:len(pt)] == pt):
                 ctx.divergence('statements before the refused one differ from the model', {'spec': r.spec, 'history': r.hist, 'request': rec['request'], 'strict': r.strict}, model=model, impl={'error': real['error'], 'statements': pt})
             ctx.count('model-prefix-checked')
         elif model != real:
